@@ -60,35 +60,39 @@ fn inv(op: &Op, _ctx: &dyn Context, operands: &mut dyn CoordinateSet) -> usize {
 
     'points: for i in 0..n {
         let mut coord = operands.get_coord(i);
-        if let Some(t) = grids_at(grids, &coord, use_null_grid) {
-            // Geoid
-            if grids[0].bands() == 1 {
-                coord[2] += t[0];
-                operands.set_coord(i, &coord);
-                successes += 1;
+        let Some(t) = grids_at(grids, &coord, use_null_grid) else {
+            // No grid contained the point, so we stomp on the coordinate
+            operands.set_coord(i, &Coor4D::nan());
+            continue;
+        };
+
+        // Geoid
+        if grids[0].bands() == 1 {
+            coord[2] += t[0];
+            operands.set_coord(i, &coord);
+            successes += 1;
+            continue;
+        }
+
+        // Inverse case datum shift - iteration needed
+        let mut t = coord - t;
+        for _ in 0..10 {
+            if let Some(t2) = grids_at(grids, &t, use_null_grid) {
+                let d = t - coord + t2;
+                t = t - d;
+                if d[0].hypot(d[1]) < 1e-12 {
+                    operands.set_coord(i, &t);
+                    successes += 1;
+                    continue 'points;
+                }
                 continue;
             }
-
-            // Inverse case datum shift - iteration needed
-            let mut t = coord - t;
-            for _ in 0..10 {
-                if let Some(t2) = grids_at(grids, &t, use_null_grid) {
-                    let d = t - coord + t2;
-                    t = t - d;
-                    if d[0].hypot(d[1]) < 1e-12 {
-                        operands.set_coord(i, &t);
-                        successes += 1;
-                        continue 'points;
-                    }
-                    continue;
-                }
-
-                // The iteration has wandered off the grids, so we stomp
-                // on the coordinate and go on with the next
-                operands.set_coord(i, &Coor4D::nan());
-                continue 'points;
-            }
+            break;
         }
+
+        // The iteration has wandered off the grids, or did not converge,
+        // so we stomp on the coordinate and go on with the next
+        operands.set_coord(i, &Coor4D::nan());
     }
 
     successes
